@@ -432,7 +432,7 @@ func (r *Registry) prelude(native bool) string {
 		}
 		fmt.Fprintf(&b, "(declare-fun zero!%s () %s)\n", sanitize(s), s)
 	}
-	for _, name := range r.order {
+	for _, name := range r.canonicalOrder() {
 		si := r.structs[name]
 		if len(si.fields) == 0 {
 			fmt.Fprintf(&b, "(declare-datatypes ((%s 0)) (((mk-%s))))\n", name, name)
@@ -463,7 +463,13 @@ func (r *Registry) prelude(native bool) string {
 			b.WriteString("))\n")
 		}
 	}
-	for z, v := range r.zeroArrays {
+	var zs []string
+	for z := range r.zeroArrays {
+		zs = append(zs, z)
+	}
+	sort.Strings(zs)
+	for _, z := range zs {
+		v := r.zeroArrays[z]
 		fmt.Fprintf(&b, "(declare-fun %s () %s)\n(assert (forall ((i Int)) (! (= (select %s i) %s) :pattern ((select %s i)))))\n", z, v[0], z, v[1], z)
 	}
 	return b.String()
@@ -474,4 +480,38 @@ type GenError struct{ msg string }
 func (e *GenError) Error() string { return e.msg }
 func genErr(f string, a ...interface{}) *GenError {
 	return &GenError{fmt.Sprintf(f, a...)}
+}
+
+
+// canonicalOrder: the struct datatypes in an order that depends only on their names and contents (each after the
+// datatypes its fields use), not on the order in which the generator happened to meet them.
+func (r *Registry) canonicalOrder() []string {
+	names := append([]string{}, r.order...)
+	sort.Strings(names)
+	known := map[string]bool{}
+	for _, n := range names {
+		known[n] = true
+	}
+	var out []string
+	done := map[string]bool{}
+	var visit func(n string)
+	visit = func(n string) {
+		if done[n] {
+			return
+		}
+		done[n] = true
+		for _, f := range r.structs[n].fields {
+			// a field sort is a datatype name or an array sort mentioning datatype names
+			for _, tok := range strings.FieldsFunc(f.sort, func(c rune) bool { return c == ' ' || c == '(' || c == ')' }) {
+				if known[tok] && tok != n {
+					visit(tok)
+				}
+			}
+		}
+		out = append(out, n)
+	}
+	for _, n := range names {
+		visit(n)
+	}
+	return out
 }
